@@ -1,61 +1,512 @@
 ------------------------ MODULE WhisperFile_proofs ------------------------
 (***************************************************************************)
-(* TLAPS proof, for ANY sets of writers/readers, pages, threads and any    *)
-(* number of sessions, that the quirk-free specification of WhisperFile    *)
-(* keeps C13's two lock properties: at most one handle at a time (Mutex)   *)
-(* and the lock lives exactly as long as a handle (LockLifetime).          *)
-(* TLC checks them only for the small constants of the .cfg files.         *)
+(* TLAPS proof - for ANY sets of writers and readers, any number of pages, *)
+(* threads and sessions, and unbounded generations - that the quirk-free   *)
+(* specification WhisperFile keeps                                         *)
+(*   Mutex, LockLifetime, NoLostUpdate                          (C13)      *)
+(*   SyncedEqualsView, CleanPagesFresh              (page level of C05)    *)
+(* TLC checks the same invariants exhaustively, but only for the small     *)
+(* constants of the .cfg files.  Inv is the inductive invariant; TLC also  *)
+(* checks it on the reachable states (cheap way to find a non-invariant    *)
+(* before attempting the proof).  One step per action and conjunct, so a   *)
+(* change of the specification that breaks the argument points at the      *)
+(* action and the clause that fail.                                        *)
 (***************************************************************************)
 EXTENDS WhisperFile, TLAPS
 
 ASSUME QuirkFree == FQuirks = {}
 ASSUME FreeIsNoProc == "free" \notin Procs
+ASSUME PagesNat == NPages \in Nat /\ NPages >= 1
 
 PcStates == {"idle", "locking", "hdr", "open", "syncing", "synced"}
 
-LockInv == /\ pc \in [Procs -> PcStates]
+TypeInv == /\ pc \in [Procs -> PcStates]
            /\ lock \in Procs \cup {"free"}
-           /\ \A p \in Procs : HasHandle(p) <=> lock = p
+           /\ disk \in [Pages -> Int]
+           /\ cache \in [Procs -> [Pages -> Int]]
+           /\ dirty \in [Procs -> SUBSET Pages]
+           /\ val \in [Procs -> Int]
+           /\ commits \in Nat
+           /\ mode \in [Procs -> {"open", "create"}]
+           /\ exists \in BOOLEAN /\ hdrOk \in BOOLEAN
 
-LEMMA InitInv == Init => LockInv
-  BY FreeIsNoProc DEF Init, LockInv, PcStates, HasHandle
+LockI == \A p \in Procs : HasHandle(p) <=> lock = p
 
-LEMMA NextInv == LockInv /\ [Next]_vars => LockInv'
-<1> SUFFICES ASSUME LockInv, [Next]_vars PROVE LockInv'
+QuietI == \A p \in Procs : pc[p] \in {"idle", "locking", "hdr"} =>
+             /\ \A pg \in Pages : cache[p][pg] = Unread
+             /\ dirty[p] = {} /\ val[p] = Unread
+
+DiskI == (\A p \in Procs : pc[p] # "syncing") => \A pg \in Pages : disk[pg] = commits
+
+SyncingI == \A p \in Procs : pc[p] = "syncing" =>
+               /\ val[p] = commits + 1
+               /\ \A pg \in Pages : /\ cache[p][pg] = val[p]
+                                    /\ pg \in dirty[p] => disk[pg] = commits
+                                    /\ pg \notin dirty[p] => disk[pg] = val[p]
+
+OpenI == \A p \in Procs : pc[p] = "open" =>
+            /\ val[p] = Unread \/ val[p] = commits + 1
+            /\ cache[p][0] # Unread
+            /\ \A pg \in Pages : \/ cache[p][pg] = Unread
+                                 \/ cache[p][pg] = disk[pg]
+                                 \/ (pg \in dirty[p] /\ val[p] # Unread /\ cache[p][pg] = val[p])
+            /\ \A pg \in Pages : (val[p] # Unread /\ cache[p][pg] = val[p]) => pg \in dirty[p]
+
+WriterI == \A p \in Procs : val[p] # Unread => p \in Writers
+
+SyncedI == \A p \in Procs : pc[p] = "synced" => \A pg \in Pages : cache[p][pg] = disk[pg]
+
+ExistsI == ~exists => (commits = 0 /\ ~hdrOk /\ \A p \in Procs : pc[p] = "idle")
+
+CreatorPending == \E p \in Procs : mode[p] = "create" /\ pc[p] \in {"locking", "hdr"}
+CreatorI == CreatorPending => (commits = 0 /\ ~hdrOk /\ \A q \in Procs : pc[q] \in {"idle", "locking", "hdr"})
+
+UniqueI == \A p, q \in Procs : (mode[p] = "create" /\ pc[p] \in {"locking", "hdr"} /\ mode[q] = "create" /\ pc[q] \in {"locking", "hdr"}) => p = q
+
+Inv == TypeInv /\ LockI /\ QuietI /\ DiskI /\ SyncingI /\ OpenI /\ WriterI /\ ExistsI /\ CreatorI /\ UniqueI /\ SyncedI
+
+
+LEMMA InitInv == Init => Inv
+  BY FreeIsNoProc, PagesNat DEF Init, Inv, TypeInv, LockI, QuietI, DiskI, SyncingI, OpenI, WriterI, ExistsI, CreatorI, CreatorPending, UniqueI, SyncedI,
+     PcStates, HasHandle, Unread, Pages, Damages
+
+LEMMA NextInv == Inv /\ [Next]_vars => Inv'
+<1> SUFFICES ASSUME Inv, [Next]_vars PROVE Inv'
   OBVIOUS
-<1>1. ASSUME NEW p \in Procs, OpenFd(p) PROVE LockInv'
-  BY <1>1, FreeIsNoProc DEF OpenFd, LockInv, PcStates, HasHandle
-<1>2. ASSUME NEW p \in Procs, CreateFd(p) PROVE LockInv'
-  BY <1>2, FreeIsNoProc DEF CreateFd, LockInv, PcStates, HasHandle
-<1>3. ASSUME NEW p \in Procs, Acquire(p) PROVE LockInv'
-  BY <1>3, FreeIsNoProc, QuirkFree DEF Acquire, NoLock, LockInv, PcStates, HasHandle
-<1>4. ASSUME NEW p \in Procs, ReadHeader(p) PROVE LockInv'
-  BY <1>4, FreeIsNoProc, QuirkFree DEF ReadHeader, LockInv, PcStates, HasHandle
-<1>5. ASSUME NEW p \in Procs, InitFile(p) PROVE LockInv'
-  BY <1>5, FreeIsNoProc DEF InitFile, LockInv, PcStates, HasHandle
-<1>6. ASSUME NEW p \in Procs, Finalize(p) PROVE LockInv'
-  BY <1>6, FreeIsNoProc DEF Finalize, LockInv, PcStates, HasHandle
-<1>7. ASSUME NEW p \in Procs, NEW pg \in Pages, ReadPage(p, pg) \/ WStamp(p, pg) \/ FlushPage(p, pg) PROVE LockInv'
-  BY <1>7, FreeIsNoProc DEF ReadPage, WStamp, FlushPage, LockInv, PcStates, HasHandle
-<1>8. ASSUME NEW p \in Procs, NEW pg \in Pages, NEW t \in Threads, Observe(p, t, pg) PROVE LockInv'
-  BY <1>8, FreeIsNoProc DEF Observe, LockInv, PcStates, HasHandle
-<1>9. ASSUME NEW p \in Procs, WLoad(p) \/ SyncStart(p) \/ SyncDone(p) PROVE LockInv'
-  BY <1>9, FreeIsNoProc DEF WLoad, SyncStart, SyncDone, LockInv, PcStates, HasHandle
-<1>10. ASSUME NEW p \in Procs, Close(p) PROVE LockInv'
-  BY <1>10, FreeIsNoProc DEF Close, LockInv, PcStates, HasHandle
-<1>11. ASSUME NEW p \in Procs, Crash(p) PROVE LockInv'
-  BY <1>11, FreeIsNoProc DEF Crash, LockInv, PcStates, HasHandle
-<1>12. ASSUME FlipHeader PROVE LockInv'
-  BY <1>12 DEF FlipHeader, LockInv, PcStates, HasHandle
-<1>13. ASSUME UNCHANGED vars PROVE LockInv'
-  BY <1>13 DEF vars, LockInv, PcStates, HasHandle
+<1> USE FreeIsNoProc, QuirkFree, PagesNat DEF Inv, TypeInv, LockI, QuietI, DiskI, SyncingI, OpenI, WriterI, ExistsI, CreatorI, CreatorPending, UniqueI, SyncedI,
+     PcStates, HasHandle, Unread, Pages, aux
+<1>1. ASSUME NEW p \in Procs, OpenFd(p) PROVE Inv'
+  <2>1. TypeInv'
+    BY <1>1 DEF OpenFd
+  <2>2. LockI'
+    BY <1>1 DEF OpenFd
+  <2>3. QuietI'
+    BY <1>1 DEF OpenFd
+  <2>4. DiskI'
+    BY <1>1 DEF OpenFd
+  <2>5. SyncingI'
+    BY <1>1 DEF OpenFd
+  <2>6. OpenI'
+    BY <1>1 DEF OpenFd
+  <2>7. WriterI'
+    BY <1>1 DEF OpenFd
+  <2>8. ExistsI'
+    BY <1>1 DEF OpenFd
+  <2>9. CreatorI'
+    BY <1>1 DEF OpenFd
+  <2>10. UniqueI'
+    BY <1>1 DEF OpenFd
+  <2>11. SyncedI'
+    BY <1>1 DEF OpenFd
+  <2> QED
+    BY <2>1, <2>2, <2>3, <2>4, <2>5, <2>6, <2>7, <2>8, <2>9, <2>10, <2>11
+<1>2. ASSUME NEW p \in Procs, CreateFd(p) PROVE Inv'
+  <2>1. TypeInv'
+    BY <1>2 DEF CreateFd
+  <2>2. LockI'
+    BY <1>2 DEF CreateFd
+  <2>3. QuietI'
+    BY <1>2 DEF CreateFd
+  <2>4. DiskI'
+    BY <1>2 DEF CreateFd
+  <2>5. SyncingI'
+    BY <1>2 DEF CreateFd
+  <2>6. OpenI'
+    BY <1>2 DEF CreateFd
+  <2>7. WriterI'
+    BY <1>2 DEF CreateFd
+  <2>8. ExistsI'
+    BY <1>2 DEF CreateFd
+  <2>9. CreatorI'
+    BY <1>2 DEF CreateFd
+  <2>10. UniqueI'
+    BY <1>2 DEF CreateFd
+  <2>11. SyncedI'
+    BY <1>2 DEF CreateFd
+  <2> QED
+    BY <2>1, <2>2, <2>3, <2>4, <2>5, <2>6, <2>7, <2>8, <2>9, <2>10, <2>11
+<1>3. ASSUME NEW p \in Procs, Acquire(p) PROVE Inv'
+  <2>1. TypeInv'
+    BY <1>3 DEF Acquire, NoLock
+  <2>2. LockI'
+    BY <1>3 DEF Acquire, NoLock
+  <2>3. QuietI'
+    BY <1>3 DEF Acquire, NoLock
+  <2>4. DiskI'
+    BY <1>3 DEF Acquire, NoLock
+  <2>5. SyncingI'
+    BY <1>3 DEF Acquire, NoLock
+  <2>6. OpenI'
+    BY <1>3 DEF Acquire, NoLock
+  <2>7. WriterI'
+    BY <1>3 DEF Acquire, NoLock
+  <2>8. ExistsI'
+    BY <1>3 DEF Acquire, NoLock
+  <2>9. CreatorI'
+    BY <1>3 DEF Acquire, NoLock
+  <2>10. UniqueI'
+    BY <1>3 DEF Acquire, NoLock
+  <2>11. SyncedI'
+    BY <1>3 DEF Acquire, NoLock
+  <2> QED
+    BY <2>1, <2>2, <2>3, <2>4, <2>5, <2>6, <2>7, <2>8, <2>9, <2>10, <2>11
+<1>4. ASSUME NEW p \in Procs, ReadHeader(p) PROVE Inv'
+  <2>1. TypeInv'
+    BY <1>4 DEF ReadHeader
+  <2>2. LockI'
+    BY <1>4 DEF ReadHeader
+  <2>3. QuietI'
+    BY <1>4 DEF ReadHeader
+  <2>4. DiskI'
+    BY <1>4 DEF ReadHeader
+  <2>5. SyncingI'
+    BY <1>4 DEF ReadHeader
+  <2>6. OpenI'
+    BY <1>4 DEF ReadHeader
+  <2>7. WriterI'
+    BY <1>4 DEF ReadHeader
+  <2>8. ExistsI'
+    BY <1>4 DEF ReadHeader
+  <2>9. CreatorI'
+    BY <1>4 DEF ReadHeader
+  <2>10. UniqueI'
+    BY <1>4 DEF ReadHeader
+  <2>11. SyncedI'
+    BY <1>4 DEF ReadHeader
+  <2> QED
+    BY <2>1, <2>2, <2>3, <2>4, <2>5, <2>6, <2>7, <2>8, <2>9, <2>10, <2>11
+<1>5. ASSUME NEW p \in Procs, InitFile(p) PROVE Inv'
+  <2>1. TypeInv'
+    BY <1>5 DEF InitFile
+  <2>2. LockI'
+    BY <1>5 DEF InitFile
+  <2>3. QuietI'
+    BY <1>5 DEF InitFile
+  <2>4. DiskI'
+    BY <1>5 DEF InitFile
+  <2>5. SyncingI'
+    BY <1>5 DEF InitFile
+  <2>6. OpenI'
+    BY <1>5 DEF InitFile
+  <2>7. WriterI'
+    BY <1>5 DEF InitFile
+  <2>8. ExistsI'
+    BY <1>5 DEF InitFile
+  <2>9. CreatorI'
+    BY <1>5 DEF InitFile
+  <2>10. UniqueI'
+    BY <1>5 DEF InitFile
+  <2>11. SyncedI'
+    BY <1>5 DEF InitFile
+  <2> QED
+    BY <2>1, <2>2, <2>3, <2>4, <2>5, <2>6, <2>7, <2>8, <2>9, <2>10, <2>11
+<1>6. ASSUME NEW p \in Procs, Finalize(p) PROVE Inv'
+  <2>1. TypeInv'
+    BY <1>6 DEF Finalize
+  <2>2. LockI'
+    BY <1>6 DEF Finalize
+  <2>3. QuietI'
+    BY <1>6 DEF Finalize
+  <2>4. DiskI'
+    BY <1>6 DEF Finalize
+  <2>5. SyncingI'
+    BY <1>6 DEF Finalize
+  <2>6. OpenI'
+    BY <1>6 DEF Finalize
+  <2>7. WriterI'
+    BY <1>6 DEF Finalize
+  <2>8. ExistsI'
+    BY <1>6 DEF Finalize
+  <2>9. CreatorI'
+    BY <1>6 DEF Finalize
+  <2>10. UniqueI'
+    BY <1>6 DEF Finalize
+  <2>11. SyncedI'
+    BY <1>6 DEF Finalize
+  <2> QED
+    BY <2>1, <2>2, <2>3, <2>4, <2>5, <2>6, <2>7, <2>8, <2>9, <2>10, <2>11
+<1>7. ASSUME NEW p \in Procs, NEW pg \in Pages, ReadPage(p, pg) PROVE Inv'
+  <2>1. TypeInv'
+    BY <1>7 DEF ReadPage
+  <2>2. LockI'
+    BY <1>7 DEF ReadPage
+  <2>3. QuietI'
+    BY <1>7 DEF ReadPage
+  <2>4. DiskI'
+    BY <1>7 DEF ReadPage
+  <2>5. SyncingI'
+    BY <1>7 DEF ReadPage
+  <2>6. OpenI'
+    BY <1>7 DEF ReadPage
+  <2>7. WriterI'
+    BY <1>7 DEF ReadPage
+  <2>8. ExistsI'
+    BY <1>7 DEF ReadPage
+  <2>9. CreatorI'
+    BY <1>7 DEF ReadPage
+  <2>10. UniqueI'
+    BY <1>7 DEF ReadPage
+  <2>11. SyncedI'
+    BY <1>7 DEF ReadPage
+  <2> QED
+    BY <2>1, <2>2, <2>3, <2>4, <2>5, <2>6, <2>7, <2>8, <2>9, <2>10, <2>11
+<1>8. ASSUME NEW p \in Procs, NEW pg \in Pages, WStamp(p, pg) PROVE Inv'
+  <2>1. TypeInv'
+    BY <1>8 DEF WStamp
+  <2>2. LockI'
+    BY <1>8 DEF WStamp
+  <2>3. QuietI'
+    BY <1>8 DEF WStamp
+  <2>4. DiskI'
+    BY <1>8 DEF WStamp
+  <2>5. SyncingI'
+    BY <1>8 DEF WStamp
+  <2>6. OpenI'
+    BY <1>8 DEF WStamp
+  <2>7. WriterI'
+    BY <1>8 DEF WStamp
+  <2>8. ExistsI'
+    BY <1>8 DEF WStamp
+  <2>9. CreatorI'
+    BY <1>8 DEF WStamp
+  <2>10. UniqueI'
+    BY <1>8 DEF WStamp
+  <2>11. SyncedI'
+    BY <1>8 DEF WStamp
+  <2> QED
+    BY <2>1, <2>2, <2>3, <2>4, <2>5, <2>6, <2>7, <2>8, <2>9, <2>10, <2>11
+<1>9. ASSUME NEW p \in Procs, NEW pg \in Pages, FlushPage(p, pg) PROVE Inv'
+  <2>1. TypeInv'
+    BY <1>9 DEF FlushPage
+  <2>2. LockI'
+    BY <1>9 DEF FlushPage
+  <2>3. QuietI'
+    BY <1>9 DEF FlushPage
+  <2>4. DiskI'
+    BY <1>9 DEF FlushPage
+  <2>5. SyncingI'
+    BY <1>9 DEF FlushPage
+  <2>6. OpenI'
+    BY <1>9 DEF FlushPage
+  <2>7. WriterI'
+    BY <1>9 DEF FlushPage
+  <2>8. ExistsI'
+    BY <1>9 DEF FlushPage
+  <2>9. CreatorI'
+    BY <1>9 DEF FlushPage
+  <2>10. UniqueI'
+    BY <1>9 DEF FlushPage
+  <2>11. SyncedI'
+    BY <1>9 DEF FlushPage
+  <2> QED
+    BY <2>1, <2>2, <2>3, <2>4, <2>5, <2>6, <2>7, <2>8, <2>9, <2>10, <2>11
+<1>10. ASSUME NEW p \in Procs, NEW pg \in Pages, NEW t \in Threads, Observe(p, t, pg) PROVE Inv'
+  <2>1. TypeInv'
+    BY <1>10 DEF Observe
+  <2>2. LockI'
+    BY <1>10 DEF Observe
+  <2>3. QuietI'
+    BY <1>10 DEF Observe
+  <2>4. DiskI'
+    BY <1>10 DEF Observe
+  <2>5. SyncingI'
+    BY <1>10 DEF Observe
+  <2>6. OpenI'
+    BY <1>10 DEF Observe
+  <2>7. WriterI'
+    BY <1>10 DEF Observe
+  <2>8. ExistsI'
+    BY <1>10 DEF Observe
+  <2>9. CreatorI'
+    BY <1>10 DEF Observe
+  <2>10. UniqueI'
+    BY <1>10 DEF Observe
+  <2>11. SyncedI'
+    BY <1>10 DEF Observe
+  <2> QED
+    BY <2>1, <2>2, <2>3, <2>4, <2>5, <2>6, <2>7, <2>8, <2>9, <2>10, <2>11
+<1>11. ASSUME NEW p \in Procs, WLoad(p) PROVE Inv'
+  <2>1. TypeInv'
+    BY <1>11 DEF WLoad
+  <2>2. LockI'
+    BY <1>11 DEF WLoad
+  <2>3. QuietI'
+    BY <1>11 DEF WLoad
+  <2>4. DiskI'
+    BY <1>11 DEF WLoad
+  <2>5. SyncingI'
+    BY <1>11 DEF WLoad
+  <2>6. OpenI'
+    BY <1>11 DEF WLoad
+  <2>7. WriterI'
+    BY <1>11 DEF WLoad
+  <2>8. ExistsI'
+    BY <1>11 DEF WLoad
+  <2>9. CreatorI'
+    BY <1>11 DEF WLoad
+  <2>10. UniqueI'
+    BY <1>11 DEF WLoad
+  <2>11. SyncedI'
+    BY <1>11 DEF WLoad
+  <2> QED
+    BY <2>1, <2>2, <2>3, <2>4, <2>5, <2>6, <2>7, <2>8, <2>9, <2>10, <2>11
+<1>12. ASSUME NEW p \in Procs, SyncStart(p) PROVE Inv'
+  <2>1. TypeInv'
+    BY <1>12 DEF SyncStart
+  <2>2. LockI'
+    BY <1>12 DEF SyncStart
+  <2>3. QuietI'
+    BY <1>12 DEF SyncStart
+  <2>4. DiskI'
+    BY <1>12 DEF SyncStart
+  <2>5. SyncingI'
+    BY <1>12 DEF SyncStart
+  <2>6. OpenI'
+    BY <1>12 DEF SyncStart
+  <2>7. WriterI'
+    BY <1>12 DEF SyncStart
+  <2>8. ExistsI'
+    BY <1>12 DEF SyncStart
+  <2>9. CreatorI'
+    BY <1>12 DEF SyncStart
+  <2>10. UniqueI'
+    BY <1>12 DEF SyncStart
+  <2>11. SyncedI'
+    BY <1>12 DEF SyncStart
+  <2> QED
+    BY <2>1, <2>2, <2>3, <2>4, <2>5, <2>6, <2>7, <2>8, <2>9, <2>10, <2>11
+<1>13. ASSUME NEW p \in Procs, SyncDone(p) PROVE Inv'
+  <2>1. TypeInv'
+    BY <1>13 DEF SyncDone
+  <2>2. LockI'
+    BY <1>13 DEF SyncDone
+  <2>3. QuietI'
+    BY <1>13 DEF SyncDone
+  <2>4. DiskI'
+    BY <1>13 DEF SyncDone
+  <2>5. SyncingI'
+    BY <1>13 DEF SyncDone
+  <2>6. OpenI'
+    BY <1>13 DEF SyncDone
+  <2>7. WriterI'
+    BY <1>13 DEF SyncDone
+  <2>8. ExistsI'
+    BY <1>13 DEF SyncDone
+  <2>9. CreatorI'
+    BY <1>13 DEF SyncDone
+  <2>10. UniqueI'
+    BY <1>13 DEF SyncDone
+  <2>11. SyncedI'
+    BY <1>13 DEF SyncDone
+  <2> QED
+    BY <2>1, <2>2, <2>3, <2>4, <2>5, <2>6, <2>7, <2>8, <2>9, <2>10, <2>11
+<1>14. ASSUME NEW p \in Procs, Close(p) PROVE Inv'
+  <2>1. TypeInv'
+    BY <1>14 DEF Close
+  <2>2. LockI'
+    BY <1>14 DEF Close
+  <2>3. QuietI'
+    BY <1>14 DEF Close
+  <2>4. DiskI'
+    BY <1>14 DEF Close
+  <2>5. SyncingI'
+    BY <1>14 DEF Close
+  <2>6. OpenI'
+    BY <1>14 DEF Close
+  <2>7. WriterI'
+    BY <1>14 DEF Close
+  <2>8. ExistsI'
+    BY <1>14 DEF Close
+  <2>9. CreatorI'
+    BY <1>14 DEF Close
+  <2>10. UniqueI'
+    BY <1>14 DEF Close
+  <2>11. SyncedI'
+    BY <1>14 DEF Close
+  <2> QED
+    BY <2>1, <2>2, <2>3, <2>4, <2>5, <2>6, <2>7, <2>8, <2>9, <2>10, <2>11
+<1>15. ASSUME NEW p \in Procs, Crash(p) PROVE Inv'
+  <2>1. TypeInv'
+    BY <1>15 DEF Crash
+  <2>2. LockI'
+    BY <1>15 DEF Crash
+  <2>3. QuietI'
+    BY <1>15 DEF Crash
+  <2>4. DiskI'
+    BY <1>15 DEF Crash
+  <2>5. SyncingI'
+    BY <1>15 DEF Crash
+  <2>6. OpenI'
+    BY <1>15 DEF Crash
+  <2>7. WriterI'
+    BY <1>15 DEF Crash
+  <2>8. ExistsI'
+    BY <1>15 DEF Crash
+  <2>9. CreatorI'
+    BY <1>15 DEF Crash
+  <2>10. UniqueI'
+    BY <1>15 DEF Crash
+  <2>11. SyncedI'
+    BY <1>15 DEF Crash
+  <2> QED
+    BY <2>1, <2>2, <2>3, <2>4, <2>5, <2>6, <2>7, <2>8, <2>9, <2>10, <2>11
+<1>16. ASSUME FlipHeader PROVE Inv'
+  <2>1. TypeInv'
+    BY <1>16 DEF FlipHeader
+  <2>2. LockI'
+    BY <1>16 DEF FlipHeader
+  <2>3. QuietI'
+    BY <1>16 DEF FlipHeader
+  <2>4. DiskI'
+    BY <1>16 DEF FlipHeader
+  <2>5. SyncingI'
+    BY <1>16 DEF FlipHeader
+  <2>6. OpenI'
+    BY <1>16 DEF FlipHeader
+  <2>7. WriterI'
+    BY <1>16 DEF FlipHeader
+  <2>8. ExistsI'
+    BY <1>16 DEF FlipHeader
+  <2>9. CreatorI'
+    BY <1>16 DEF FlipHeader
+  <2>10. UniqueI'
+    BY <1>16 DEF FlipHeader
+  <2>11. SyncedI'
+    BY <1>16 DEF FlipHeader
+  <2> QED
+    BY <2>1, <2>2, <2>3, <2>4, <2>5, <2>6, <2>7, <2>8, <2>9, <2>10, <2>11
+<1>17. ASSUME UNCHANGED vars PROVE Inv'
+  <2>1. TypeInv'
+    BY <1>17 DEF vars, aux
+  <2>2. LockI'
+    BY <1>17 DEF vars, aux
+  <2>3. QuietI'
+    BY <1>17 DEF vars, aux
+  <2>4. DiskI'
+    BY <1>17 DEF vars, aux
+  <2>5. SyncingI'
+    BY <1>17 DEF vars, aux
+  <2>6. OpenI'
+    BY <1>17 DEF vars, aux
+  <2>7. WriterI'
+    BY <1>17 DEF vars, aux
+  <2>8. ExistsI'
+    BY <1>17 DEF vars, aux
+  <2>9. CreatorI'
+    BY <1>17 DEF vars, aux
+  <2>10. UniqueI'
+    BY <1>17 DEF vars, aux
+  <2>11. SyncedI'
+    BY <1>17 DEF vars, aux
+  <2> QED
+    BY <2>1, <2>2, <2>3, <2>4, <2>5, <2>6, <2>7, <2>8, <2>9, <2>10, <2>11
 <1> QED
-  BY <1>1, <1>2, <1>3, <1>4, <1>5, <1>6, <1>7, <1>8, <1>9, <1>10, <1>11, <1>12, <1>13 DEF Next
+  BY <1>1, <1>2, <1>3, <1>4, <1>5, <1>6, <1>7, <1>8, <1>9, <1>10, <1>11, <1>12, <1>13, <1>14, <1>15, <1>16, <1>17 DEF Next
 
-THEOREM LockSafety == Spec => [](Mutex /\ LockLifetime)
-<1>1. LockInv => Mutex /\ LockLifetime
-  BY DEF LockInv, Mutex, LockLifetime, HasHandle
-<1>2. Spec => []LockInv
+THEOREM Safety == Spec => [](NoLostUpdate /\ Mutex /\ LockLifetime /\ SyncedEqualsView /\ CleanPagesFresh)
+<1>1. Inv => NoLostUpdate /\ Mutex /\ LockLifetime /\ SyncedEqualsView /\ CleanPagesFresh
+  BY DEF Inv, TypeInv, DiskI, LockI, OpenI, SyncedI, NoLostUpdate, Mutex, LockLifetime, SyncedEqualsView, CleanPagesFresh, HasHandle, Unread, PcStates
+<1>2. Spec => []Inv
   BY InitInv, NextInv, PTL DEF Spec
 <1> QED
   BY <1>1, <1>2, PTL
